@@ -17,14 +17,15 @@ def run(ctx):
                 "argument, rewrite result, replace error} with lists of length 0..2 (thorough 0..3) and 0..1 AddMiddleware, "
                 "enumerated by TLC with the enter/exit log, final result, error and handler-side argument that Middleware's Invoke "
                 "forces (TLC also checks OncePerLayer / Nested / FarSideSeesLastRewrite on each). Each case runs on the generated "
-                "client (own method add and inherited method ping), the generated processor (constructor + AddMiddleware; the "
+                "client (own method add and inherited method ping; each once more with the caller's list - spare capacity - reused for a second "
+                "client with another provider and then overwritten), the generated processor (constructor + AddMiddleware; the "
                 "remote caller's view included), the generated publisher and subscriber (NATS). non-trivial = at least two "
                 "layers; distinct by (attachment point, case)")
     ctx.assumptions += ["provider middleware wraps constructor middleware; within a list the later entry wraps the earlier; AddMiddleware wraps everything",
                         "publishers / subscribers have no result value: 'rewrite result' layers are exercised on services only"]
     n = 3 if thorough else 2
     ctx.tlc_must_hold("Middleware", "m.cfg", workers=4, timeout=1800, heap="10g", cfg_text=(
-        "SPECIFICATION Spec\nCONSTANTS MaxLen = %d\nINVARIANTS OncePerLayer Nested FarSideSeesLastRewrite FirstResultKept\nCHECK_DEADLOCK FALSE\n" % n))
+        "SPECIFICATION Spec\nCONSTANTS MaxLen = %d\nINVARIANTS OncePerLayer Nested FarSideSeesLastRewrite FirstResultKept ChainIsAValue\nCHECK_DEADLOCK FALSE\n" % n))
     cases_file = find(ctx, "middleware_cases.json")
     cases = json.load(open(cases_file))
     binary = ctx.go_build("mwcheck")
